@@ -2,8 +2,8 @@
 """Regenerates /verif/MANIFEST.json from the table below (one entry per claimed property)."""
 import json, subprocess
 
-ENGINE = {'C01':'xdsconv','C03':'xdsconv','C05':'xdsconv','C02':'pushflow','C04':'xdsproto','C06':'xdscache','C11':'xdscache',
-          'C07':'gensem','C08':'gensem','C10':'gensem','C12':'gensem','C14':'gensem','C17':'gensem','C09':'casec','C13':'epindex',
+ENGINE = {'C01':'xdsconv','C03':'xdsconv','C05':'xdsconv','C02':'pushflow','C04':'xdsproto','C06':'xdscache','C11':'sdsauth',
+          'C07':'visref','C08':'rbacref','C10':'mtlsref','C12':'routeref','C14':'wellformed','C17':'determ','C09':'casec','C13':'epindex',
           'C15':'kubereg','C16':'krtmon','C18':'agentsec','C19':'injectmon','C20':'iptmon'}
 
 # id -> dict(category, text, note, technique, design_ref)
